@@ -96,7 +96,7 @@ class Model:
             env = dict(zip(params_of(fn), args))
             if selfv is not None:
                 env["self"] = selfv
-            ev = Evaluator(hooks=hooks)
+            ev = Evaluator(hooks=hooks_of(fn))
             ev.opaque_types = {"StamError"}
             ev.globals = M.globals
             ev.steps = 0
@@ -105,12 +105,33 @@ class Model:
             return r
         self.call = call
 
+        # `Self::f(..)` means the f of the type the running function belongs to: one hook table per type of the file
+        by_type = {}
+        for f in self.syn.fns:
+            if f.file == QFILE and f.body is not None and f.trait is None and f.self_ty:
+                by_type.setdefault(f.self_ty.split("<")[0], {}).setdefault(f.name, f)
+        self.by_type = by_type
+        tables = {}
+
+        def hooks_of(fn):
+            t = (fn.self_ty or "").split("<")[0] if fn.file == QFILE else ""
+            if t not in by_type:
+                return hooks
+            if t not in tables:
+                tb = dict(hooks)
+                for nm, f2 in by_type[t].items():
+                    tb["call:Self::" + nm] = mk(f2)
+                tables[t] = tb
+            return tables[t]
+
         def mk(fn):
             return lambda ev, recv, args, node, env: call(fn, args)
         for key, nm in (("call:get_arg", "get_arg"), ("call:get_arg_type", "get_arg_type"), ("call:parse_qualifiers", "parse_qualifiers"), ("call:parse_text_qualifiers", "parse_text_qualifiers"),
-                        ("call:parse_dataoperator", "parse_dataoperator"), ("call:Self::parse_offset", "parse_offset"), ("call:Self::closed", "closed"), ("call:Constraint::closed", "closed"),
-                        ("call:Query::parse_attributes", "parse_attributes"), ("call:Self::parse", "parse"), ("call:Constraint::parse", "parse")):
+                        ("call:parse_dataoperator", "parse_dataoperator")):
             hooks[key] = mk(self.f[nm])
+        for t, fs in by_type.items():
+            for nm, f2 in fs.items():
+                hooks["call:%s::%s" % (t, nm)] = mk(f2)
         for nm, fn in self.opt.items():
             if fn is not None:
                 want = "f64" if "f64" in re.sub(r"\s+", "", (fn.sig.get("output") or {}).get("s", "")) else "isize"
@@ -400,6 +421,11 @@ class Model:
                 return call(self.f["tso_as_str"], [], selfv=recv)
             if isinstance(recv, StructVal) and recv.tyname == "Regex":
                 return recv["src"]
+            if isinstance(recv, EnumVal) and not recv.args:
+                # another enum of the file with an as_str of its own (QueryType, QueryQualifier)
+                for t, fs in sorted(by_type.items()):
+                    if "as_str" in fs and t in self.enums and recv.name in self.variants_of(t):
+                        return call(fs["as_str"], [], selfv=recv)
             return NotImplemented
         hooks["as_str"] = h_as_str
 
@@ -422,6 +448,25 @@ class Model:
             return NotImplemented
         hooks["to_string"] = h_to_string
         hooks["len"] = lambda ev, recv, args, node, env: len(recv) if isinstance(recv, list) else (len(recv.encode("utf8")) if is_str(recv) else NotImplemented)
+        hooks["zip"] = lambda ev, recv, args, node, env: [(a, b) for a, b in zip(recv, args[0])] if isinstance(recv, list) and len(args) == 1 and isinstance(args[0], list) else NotImplemented
+        hooks["call:HashMap::new"] = lambda ev, recv, args, node, env: StructVal("HashMap", {})
+        hooks["trim"] = lambda ev, recv, args, node, env: recv.strip(WS) if is_str(recv) and not args else NotImplemented
+
+        def h_any(ev, recv, args, node, env):
+            # a method of Query called on a Query value: run its extracted body
+            if isinstance(recv, StructVal) and recv.tyname in ("Query", "Self") and "querytype" in recv:
+                fn = by_type.get("Query", {}).get(node["method"])
+                if fn is not None and fn.body is not None:
+                    return call(fn, args, selfv=recv)
+            return NotImplemented
+        hooks["*"] = h_any
+        prev_to_string = hooks["to_string"]
+
+        def h_to_string2(ev, recv, args, node, env):
+            if isinstance(recv, StructVal) and recv.tyname in ("Query", "Self") and "querytype" in recv and not args:
+                return call(by_type["Query"]["to_string"], [], selfv=recv)
+            return prev_to_string(ev, recv, args, node, env)
+        hooks["to_string"] = h_to_string2
         self.hooks = hooks
         return hooks
 
@@ -638,3 +683,138 @@ def roundtrip_rule(ctx, syn, rid="C09.ROUNDTRIP"):
         r.hit("variant:" + kind, sample={"variant": kind, "printable_values": k_})
     r.notes.append("grid: %d constraint values, %d printable; variants printed from store handles are excluded: %s; evaluator steps: %d" % (n, printable, ", ".join(s_ for s_ in skipped if "(" not in s_), m.steps))
     ctx.floor(r, printable, 350, "printable constraint values evaluated")
+
+
+# ====================================================================== whole queries
+def as_query(v):
+    """struct literals inside `impl Query` are written `Self { .. }`"""
+    if isinstance(v, StructVal) and v.tyname in ("Self", "Query") and "querytype" in v:
+        q = StructVal("Query", dict(v))
+        q["subqueries"] = [as_query(x) for x in v.get("subqueries", [])]
+        q["constraints"] = [normalise(c) for c in v.get("constraints", [])]
+        return q
+    return v
+
+
+def query_grid(model):
+    cgrid, _ = grid(model)
+    pick = {}
+    for kind, c in cgrid:
+        pick.setdefault(kind, c)
+    c1, c2, c3 = pick["DataKey"], pick["Id"], pick["Text"]   # constraints that round-trip on their own (ROUNDTRIP decides the others)
+    types = [EnumVal(v["name"]) for v in model.enums["Type"]["variants"]] if "Type" in model.enums else []
+
+    def Q(querytype="Select", qualifier="Normal", resulttype="Annotation", name="x", constraints=(), cattrs=None, attributes=(), subqueries=()):
+        cons = list(constraints)
+        return StructVal("Query", {"name": some(name) if name is not None else None, "querytype": EnumVal(querytype), "qualifier": EnumVal(qualifier),
+                                   "resulttype": some(EnumVal(resulttype)) if resulttype else None, "constraints": cons,
+                                   "constraint_attributes": [list(a) for a in (cattrs if cattrs is not None else [[] for _ in cons])],
+                                   "attributes": list(attributes), "subqueries": list(subqueries), "contextvars": StructVal("HashMap", {}), "assignments": []})
+    out = []
+    printable_types = []
+    for t in types:
+        q = Q(resulttype=t.name)
+        try:
+            r = model.call(model.by_type["Query"]["resulttype_as_str"], [], selfv=q)
+        except (Unknown, Panic):
+            r = None
+        if is_some(r):
+            printable_types.append(t.name)
+    for t in printable_types:
+        for name in ("x", None):
+            out.append(("plain:%s" % ("named" if name else "anonymous"), Q(resulttype=t, name=name)))
+            out.append(("constrained:%s" % ("named" if name else "anonymous"), Q(resulttype=t, name=name, constraints=[c1])))
+    leaf = Q(resulttype="TextSelection", name="t")
+    leafc = Q(resulttype="AnnotationData", name="d", constraints=[c2])
+    for quali in ("Normal", "Optional"):
+        for attrs in ((), ("@a",), ("@a", "@b")):
+            out.append(("attributes:%d:%s" % (len(attrs), quali), Q(qualifier=quali, attributes=attrs, constraints=[c1, c3], cattrs=[["@k"], []])))
+            out.append(("attributes:%d:%s:bare" % (len(attrs), quali), Q(qualifier=quali, attributes=attrs)))
+    for outer_cons in ((), (c1,)):
+        for subs in ([leaf], [leafc], [leaf, leafc], [leafc, leaf], [Q(resulttype="Annotation", name="b", constraints=[c3], subqueries=[leaf])], [Q(resulttype="Annotation", name="b", subqueries=[leafc]), leaf],
+                     [Q(qualifier="Optional", resulttype="TextSelection", name="o", attributes=("@s",))]):
+            out.append(("subqueries:%d:%s" % (len(subs), "constrained" if outer_cons else "bare"), Q(constraints=outer_cons, subqueries=subs)))
+            out.append(("delete:%d" % len(subs), Q(querytype="Delete", subqueries=subs)))
+    return out
+
+
+def query_roundtrip_rule(ctx, syn, rid="C09.QROUNDTRIP"):
+    """the same decision for whole SELECT / DELETE queries: attributes, qualifier, result type, name, constraints with their
+    attributes, sub-query blocks (siblings, nested, with and without constraints).  ADD queries are excluded: their
+    assignments are not printed at all (known finding C09.PRINT:field:assignments)."""
+    r = ctx.rule(rid, "for every SELECT / DELETE query on the grid (result types x name x attributes x OPTIONAL x constraint lists x sub-query shapes): Query::parse reads the text Query::to_string prints, completely, as the same query, and printing that gives the same text")
+    m = Model(syn)
+    if m.missing:
+        for x in m.missing:
+            ctx.anchor_missing(r, x)
+        return
+    m.evaluator()
+    qf = m.by_type.get("Query", {})
+    need = ("parse", "parse_with_attributes", "parse_select", "parse_delete", "parse_name", "parse_subqueries", "parse_qualifier", "parse_attributes", "to_string", "resulttype_as_str")
+    miss = [n for n in need if n not in qf]
+    if miss:
+        ctx.anchor_missing(r, "Query::" + ", Query::".join(miss))
+        return
+    for n in need:
+        ctx.functions_analysed.add(qf[n].qual)
+    try:
+        g = query_grid(m)
+    except (Unknown, Panic, KeyError) as ex:
+        ctx.report(r, "grid", "the query grid could not be built (%s)" % ex, QFILE, None)
+        return
+    reported = set()
+
+    def rep(key, msg, line=None, extra=None):
+        if key not in reported:
+            reported.add(key)
+            ctx.report(r, key, msg, QFILE, line or qf["to_string"].line, extra)
+    n = 0
+    shapes = {}
+    for shape, q in g:
+        r.obligations += 1
+        try:
+            t = m.call(qf["to_string"], [], selfv=q)
+        except Unknown as u:
+            rep("unevaluated:print", "Query::to_string could not be evaluated on a %s query (%s): the round trip is not decided" % (shape, u))
+            continue
+        except Panic as p:
+            rep("print-panics:" + shape, "Query::to_string reaches a panic source (%s, line %s) on a %s query" % (p.kind, p.line, shape), p.line)
+            continue
+        if not (isinstance(t, tuple) and t and t[0] == "ok" and isinstance(t[1], str)):
+            r.discharged += 1
+            continue
+        text = t[1]
+        n += 1
+        shapes[shape] = shapes.get(shape, 0) + 1
+        try:
+            p = m.call(qf["parse"], [text])
+        except Unknown as u:
+            rep("unevaluated:parse", "Query::parse could not be evaluated on the printed form %r (%s): the round trip is not decided" % (text, u), qf["parse"].line)
+            continue
+        except Panic as pp:
+            rep("parse-panics:" + shape, "Query::parse reaches a panic source (%s, line %s) on the printed form %r" % (pp.kind, pp.line, text), pp.line)
+            continue
+        if not (isinstance(p, tuple) and p and p[0] == "ok"):
+            rep("rejected:" + shape, "the printed form %r of a %s query is rejected by Query::parse" % (text, shape), qf["parse"].line, {"printed": text})
+            continue
+        q2, rest = p[1]
+        q2 = as_query(q2)
+        qn = as_query(q)
+        if q2 != qn or (isinstance(rest, str) and rest.strip()):
+            fields = sorted(k for k in qn if qn[k] != q2.get(k)) if isinstance(q2, StructVal) else ["?"]
+            rep("differs:%s:%s%s" % (shape.split(":")[0], "+".join(fields), "|remainder" if isinstance(rest, str) and rest.strip() else ""),
+                "a %s query is printed as %r, which Query::parse reads back differing in %s%s: printing and parsing a query changes it" % (shape, text, ", ".join(fields) or "nothing", (" and leaves %r unread" % rest) if isinstance(rest, str) and rest.strip() else ""), qf["to_string"].line, {"printed": text})
+            continue
+        try:
+            t2 = m.call(qf["to_string"], [], selfv=q2)
+        except (Unknown, Panic) as ex:
+            rep("unevaluated:reprint", "Query::to_string could not be evaluated on the re-parsed query (%s)" % ex)
+            continue
+        if t2 != t:
+            rep("unstable:" + shape, "a %s query prints as %r, is read back and then prints as %r: printing is not a fixpoint" % (shape, text, t2[1] if isinstance(t2, tuple) else t2))
+            continue
+        r.discharged += 1
+    for shape, k_ in sorted(shapes.items()):
+        r.hit("shape:" + shape, sample={"shape": shape, "queries": k_})
+    r.notes.append("grid: %d queries, %d printable; evaluator steps: %d" % (len(g), n, m.steps))
+    ctx.floor(r, n, 50, "printable queries evaluated")
